@@ -18,6 +18,8 @@ ANCHORS = [
     "api.py:Converter.reverse_bimap", "api.py:Converter.from_prefix_map", "api.py:Converter.from_priority_prefix_map",
     "api.py:Converter.from_reverse_prefix_map", "api.py:Converter.from_extended_prefix_map", "api.py:Converter.from_jsonld",
 ]
+# public functions the driver does not call itself (the library reaches them internally today): missing => reported, not inconclusive
+SOFT_ANCHORS = ['api.py:Record.prefix_not_in_synonyms', 'api.py:Record.uri_prefix_not_in_synonyms']
 DECIDING = ["construct", "record-self-synonym", "loader-self-synonym"]
 RULE = (
     "case = a clash-free record collection with 0-2 injected clashes of a chosen kind (canonical/canonical, "
